@@ -28,6 +28,7 @@ type Sim struct {
 	tasks    []*Task
 	tokens   map[string]uint64 // token name -> holder goid (0 = free)
 	lastGoid uint64
+	rootGoid uint64 // the goroutine that drives the scheduler: it never parks
 	draining bool
 
 	// SchedDen biases scheduler picks: 0 ("continue the goroutine that ran
@@ -40,6 +41,13 @@ type Sim struct {
 	Preempts  int
 	decisions uint64 // running FNV of scheduler decisions
 	start     time.Time
+
+	// AutoMode selects which of the mechanically inserted park points (sim/autoyield) are
+	// live in this run: 0 none, 1 a pseudo-random quarter of the sites (AutoSalt), 2 all.
+	AutoMode int
+	AutoSalt uint64
+	held     map[uint64]int // goroutine -> sync.Mutex/RWMutex locks it holds (instrumented code only)
+	autoHits int
 
 	Violations []Violation
 	Faults     map[string]int
@@ -76,7 +84,9 @@ func NewSim(t *Tape) *Sim {
 		MaxSteps: 200000,
 		Faults:   map[string]int{},
 		Probes:   map[string]int{},
+		held:     map[uint64]int{},
 		start:    time.Now(),
+		rootGoid: goid(),
 	}
 	s.Log = &Log{start: s.start}
 	return s
@@ -144,6 +154,51 @@ func (s *Sim) YieldAfter(label string, d time.Duration) {
 	s.park(label, "", time.Now().Add(d))
 }
 
+// LockDepth is told by instrumented code about every Lock (+1) / Unlock (-1) of the calling
+// goroutine. A goroutine that holds a real mutex must not be parked: one that then blocks on
+// that mutex is not durably blocked for testing/synctest and the bubble would never settle.
+func (s *Sim) LockDepth(delta int) {
+	if s == nil || s.AutoMode == 0 {
+		return
+	}
+	id := goid()
+	s.mu.Lock()
+	if n := s.held[id] + delta; n > 0 {
+		s.held[id] = n
+	} else {
+		delete(s.held, id)
+	}
+	s.mu.Unlock()
+}
+
+// AutoYield is the park point inserted before statements that lock or touch atomics.
+func (s *Sim) AutoYield(site string) {
+	if s == nil || s.AutoMode == 0 {
+		return
+	}
+	if s.AutoMode == 1 {
+		h := fnv.New64a()
+		h.Write([]byte(site))
+		if (h.Sum64()^s.AutoSalt)%4 != 0 {
+			return
+		}
+	}
+	id := goid()
+	s.mu.Lock()
+	holds := s.held[id] > 0
+	if !holds {
+		s.autoHits++
+	}
+	s.mu.Unlock()
+	if holds {
+		return
+	}
+	s.park("auto:"+site, "", time.Time{})
+}
+
+// AutoHits is how many mechanically inserted park points were taken in this run.
+func (s *Sim) AutoHits() int { s.mu.Lock(); defer s.mu.Unlock(); return s.autoHits }
+
 // Acquire takes a scheduler-level token before a real mutex that go-header
 // holds across blocking calls. A goroutine waiting for the token is durably
 // blocked (channel), unlike one waiting on a sync.Mutex, so the bubble can
@@ -169,6 +224,12 @@ func (s *Sim) park(label, token string, notBefore time.Time) {
 		return
 	}
 	id := goid()
+	if id == s.rootGoid {
+		// the scenario itself calling into instrumented code (registering a handler, reading
+		// a getter): it is the one who steps the others, parking it would stop the world
+		s.mu.Unlock()
+		return
+	}
 	name := ""
 	if t := s.byGoid[id]; t != nil {
 		name = t.Name
